@@ -160,9 +160,8 @@ func (w *World) NSLabels(name string) map[string]string {
 			}
 		}
 	}
-	if _, ok := res["kubernetes.io/metadata.name"]; !ok {
-		res["kubernetes.io/metadata.name"] = name
-	}
+	// the API server sets this label to the namespace's own name whatever a manifest says
+	res["kubernetes.io/metadata.name"] = name
 	return res
 }
 
@@ -216,6 +215,9 @@ func (w *World) NPPortMatches(p NPPort, dst Peer, proto string, port int) bool {
 }
 
 func ipInCIDR(ip uint32, cidr string) bool {
+	if strings.Contains(cidr, ":") {
+		return false // an IPv6 block contains no IPv4 address
+	}
 	lo, hi := CIDRRange(cidr)
 	return ip >= lo && ip <= hi
 }
@@ -483,6 +485,9 @@ func (w *World) PortCuts() []int {
 func (w *World) IPCuts() []uint32 {
 	set := map[uint32]bool{0: true}
 	add := func(c string) {
+		if strings.Contains(c, ":") {
+			return
+		}
 		lo, hi := CIDRRange(c)
 		set[lo] = true
 		if hi != ^uint32(0) {
